@@ -10,24 +10,32 @@ import (
 
 // newBackend opens a fresh backend of the given kind; cleanup closes it and removes its files.
 func newBackend(kind string) (st storage.Store, cleanup func(), err error) {
+	st, _, cleanup, err = newProbedBackend(kind)
+	return st, cleanup, err
+}
+
+// newProbedBackend additionally returns the commit probe of a persistent backend (nil for memory).
+func newProbedBackend(kind string) (st storage.Store, probe commitProbe, cleanup func(), err error) {
 	switch kind {
 	case "bolt", "level":
 		dir, err := os.MkdirTemp("", "verif-crash-*")
 		if err != nil {
-			return nil, nil, err
+			return nil, nil, nil, err
 		}
 		if kind == "bolt" {
 			st, err = storage.NewBoltDBStore(dbconfig.BoltDBOptions{FilePath: filepath.Join(dir, "db.bolt")})
+			probe = &boltProbe{filepath.Join(dir, "db.bolt")}
 		} else {
 			st, err = storage.NewLevelDBStore(dbconfig.LevelDBOptions{DataDirectoryPath: filepath.Join(dir, "level")})
+			probe = &levelProbe{filepath.Join(dir, "level")}
 		}
 		if err != nil {
 			os.RemoveAll(dir)
-			return nil, nil, err
+			return nil, nil, nil, err
 		}
 		inner := st
-		return noCloseStore{st}, func() { _ = inner.Close(); os.RemoveAll(dir) }, nil
+		return noCloseStore{st}, probe, func() { _ = inner.Close(); os.RemoveAll(dir) }, nil
 	default:
-		return noCloseStore{storage.NewMemoryStore()}, func() {}, nil
+		return noCloseStore{storage.NewMemoryStore()}, nil, func() {}, nil
 	}
 }
